@@ -10,6 +10,8 @@ import MysyncModel.Replay.C13
 import MysyncModel.Replay.C18
 import MysyncModel.Replay.C17
 import MysyncModel.Replay.C16
+import MysyncModel.Replay.Mgr
+import MysyncModel.Replay.C09
 
 open Lean Replay
 
@@ -22,7 +24,9 @@ def handlers : List (String × Handler) := [
   ("c17host", Replay.C17.handleHost),
   ("c17pass", Replay.C17.handlePass),
   ("c16bsf", Replay.C16.handleBsf),
-  ("c16repair", Replay.C16.handleRepair)
+  ("c16repair", Replay.C16.handleRepair),
+  ("mgrtick", Replay.Mgr.handleTick),
+  ("c09h", Replay.C09.handle)
 ]
 
 partial def loop (h : IO.FS.Stream) (seen : Std.HashSet UInt64) (a : Acc) : IO Acc := do
